@@ -19,7 +19,7 @@ TOL = 1e-11
 D = {"s": (1.0, 2, 3), "v1": [(1.0, 2, 3)], "v2": [(1.0, 2, 3), (0, -1, 0.5)],
      "v3": [(1.0, 2, 3), (0, -1, 0.5), (0.3, 0.3, 0.3)]}
 RV = np.array([(0.2, -0.4, 0.1), (0, 0.3, 0.3), (1.0, 0, 0.2)])
-ROT = {"s": RV[0], "v1": RV[:1], "v2": RV[:2], "v3": RV}
+ROT = {"s": RV[0], "v1": RV[:1], "v2": RV[:2], "v3": RV, "None": None}   # None = the documented unit rotation (scalar input)
 AN = {"N": None, "0": 0, "s": (1.0, 1, 1), "v1": [(1.0, 1, 1)], "v2": [(1.0, 1, 1), (0, 2, 0)],
       "v3": [(1.0, 1, 1), (0, 2, 0), (-1, 0, 1)]}
 STARTS = ["auto"] + list(range(-6, 7))
@@ -61,7 +61,12 @@ def reduced_alphabet():
 def Rot(rv):
     from scipy.spatial.transform import Rotation as R
 
-    return R.from_rotvec(np.array(rv, float))
+    return R.from_rotvec(np.array(rv if rv is not None else (0.0, 0.0, 0.0), float))
+
+
+def RotArg(rv):
+    """what is passed to the library: None stays None"""
+    return None if rv is None else Rot(rv)
 
 
 def mk(kind, P, M):
@@ -89,7 +94,7 @@ def apply_impl(o, op):
     if op[0] == "move":
         o.move(D[op[1]], start=op[2])
     elif op[0] == "rot":
-        o.rotate(Rot(ROT[op[1]]), anchor=AN[op[2]], start=op[3])
+        o.rotate(RotArg(ROT[op[1]]), anchor=AN[op[2]], start=op[3])
     elif op[0] == "pos":
         o.position = PS[op[1]]
     elif op[0] == "ori":
@@ -162,7 +167,7 @@ def opkey(op):
     if op[0] == "move":
         return f"move|{'scalar' if op[1] == 's' else 'vector'}|start={startclass(op[2])}"
     if op[0] == "rot":
-        return f"rotate|rot={'scalar' if op[1] == 's' else 'vector'}|anchor={op[2]}|start={startclass(op[3])}"
+        return f"rotate|rot={'scalar' if op[1] == 's' else 'none' if op[1] == 'None' else 'vector'}|anchor={op[2]}|start={startclass(op[3])}"
     return op[0]
 
 
@@ -311,8 +316,8 @@ def euler_forms():
     combos = []
     for seq in euler_sequences():
         n = len(seq)
-        for shape in ("s", "v2"):
-            deg = EUL_ANG[0, :n] if shape == "s" else EUL_ANG[:, :n]
+        for shape in ("s", "v1", "v2"):
+            deg = EUL_ANG[0, :n] if shape == "s" else EUL_ANG[:1, :n] if shape == "v1" else EUL_ANG[:, :n]
             if n == 1:
                 deg = deg[..., 0]  # documented: scalar or (k,) for one axis
             rad = np.deg2rad(deg)
@@ -339,7 +344,7 @@ def forms_task(task):
     kind, P, M, starts = task
     n, viols = 0, []
     combos = []
-    for rkey in ROT:
+    for rkey in [k for k in ROT if k != "None"]:
         combos.append((rkey,) + forms_for(rkey, True))
         combos.append((rkey,) + forms_for(rkey, False))
         for axn in "xyz":
